@@ -34,18 +34,9 @@ def demo_command(demo_text):
 
 def one(spec, tier="quick"):
     pid, k = spec.split("/")
-    if k.startswith("r2_"):
-        src = f"/tmp/seed/{pid}/out2/{k[3:]}"
-    elif k.startswith("r7_"):
-        src = f"/tmp/seed/{pid}/out7/{k[3:]}"
-    elif k.startswith("r6_"):
-        src = f"/tmp/seed/{pid}/out6/{k[3:]}"
-    elif k.startswith("r5_"):
-        src = f"/tmp/seed/{pid}/out5/{k[3:]}"
-    elif k.startswith("r4_"):
-        src = f"/tmp/seed/{pid}/out4/{k[3:]}"
-    elif k.startswith("r3_"):
-        src = f"/tmp/seed/{pid}/out3/{k[3:]}"
+    m = re.match(r"r(\d+)_(.+)$", k)
+    if m:
+        src = f"/tmp/seed/{pid}/out{m.group(1)}/{m.group(2)}"
     else:
         src = f"/tmp/seed/{pid}/out/{k}"
     if not os.path.exists(f"{src}/patch.diff"):
